@@ -1408,6 +1408,10 @@ func (e *MetaCDC) pauseTaskWithReason(taskID, reason string, currentStates []met
 		reason)
 	if err != nil {
 		log.Warn("fail to update task reason", zap.String("task_id", taskID), zap.String("reason", reason))
+		if len(currentStates) != 0 {
+			// a pause requested through the API that could not be persisted is reported and not applied
+			return err
+		}
 	}
 	e.cdcTasks.Lock()
 	cdcTask := e.cdcTasks.data[taskID]
